@@ -259,6 +259,8 @@ poll(struct pollfd * fds, nfds_t n, int timeout)
 				if (f->conn_done) { fds[i].revents |= POLLOUT; if (f->so_error && fk_allow_hup) fds[i].revents |= POLLERR | POLLHUP; }
 			}
 		}
+		/* a reset connection is reported as error + hang-up whatever was asked for, and breaks the sending side too */
+		if (fk_allow_hup && f->kind == K_STREAM && f->end_arrived && f->in_end == FK_END_ERR) { f->broken = 1; fds[i].revents |= POLLERR | POLLHUP; }
 		if (fds[i].revents) cnt++;
 	}
 	if (cnt == 0) {
